@@ -120,7 +120,7 @@ class ReqCtx:
     """Per-request context handed to resolvers through ``context=``."""
 
     __slots__ = ("world", "faults", "kernel", "mode", "loop", "mutseq",
-                 "req_id", "stats", "pausable")
+                 "req_id", "stats", "pausable", "shared_error")
 
     def __init__(self, world, kernel, mode, loop=None, req_id=0):
         self.world = world
@@ -132,6 +132,7 @@ class ReqCtx:
         self.req_id = req_id
         self.stats = {}
         self.pausable = bool(loop is not None and loop.threaded_jobs)
+        self.shared_error = None
 
     def log(self, kind, path=None, payload=None):
         self.kernel.log.add(kind, path, payload)
@@ -145,7 +146,8 @@ class ReqCtx:
 # --------------------------------------------------------------------------
 def _start(tname, fname, root, ctx, info):
     path = tuple(info.path)
-    if tname == "Subscription":
+    if len(path) == 1 and fname in ("s0", "s1") and \
+            getattr(ctx, "is_subscription", False):
         ctx.select_event(root)
     ctx.log("rs", path, ctx.req_id)
     seq = None
@@ -158,12 +160,24 @@ def _start(tname, fname, root, ctx, info):
 def _finish(tname, fname, root, ctx, kwargs, tok):
     path, seq = tok
     fault = ctx.faults.get(path)
-    if fault in ("err", "errx", "errs"):
+    if fault == "errsh":
+        # the SAME exception instance raised by several fields of a request
+        ctx.log("rx", path, ctx.req_id)
+        ctx.count("F1_shared_error_instance")
+        if ctx.shared_error is None:
+            ctx.shared_error = ResolverError("E@shared")
+        raise ctx.shared_error
+    if fault in ("err", "errx", "errs", "errpp"):
         ctx.log("rx", path, ctx.req_id)
         ctx.count("F1_resolver_error")
         if fault == "errs":
             ctx.count("F1_resolver_error_subclass")
             raise DeniedError(error_message(path))
+        if fault == "errpp":
+            # an error that already carries a path of its own (forwarded from
+            # an upstream service): the response path of the field wins
+            ctx.count("F1_resolver_error_prepathed")
+            raise ResolverError(error_message(path), path=["upstream", 0])
         ext = None
         if fault == "errx":
             # "extensions: Optional[Mapping[str, Any]]" -- any mapping
